@@ -27,29 +27,131 @@ def _mk_solver(timeout_ms, nonlinear):
     return s
 
 
-def check_sat(formulas, timeout_ms=None, want_model=False, use_cvc5=True, extra_axioms=()):
-    """satisfiability of the conjunction of formulas, with ground transcendental axioms added"""
+def _has_trans(e, cache):
+    k = e.get_id()
+    if k in cache:
+        return cache[k]
+    r = False
+    if z3.is_app(e):
+        if e.decl().kind() == z3.Z3_OP_UNINTERPRETED and e.decl().name() in reals.TRANS_NAMES:
+            r = True
+        else:
+            r = any(_has_trans(c, cache) for c in e.children())
+    elif z3.is_quantifier(e):
+        r = _has_trans(e.body(), cache)
+    cache[k] = r
+    return r
+
+
+def _innermost(e, cache, out, seen):
+    """transcendental applications none of whose arguments contains another one"""
+    k = e.get_id()
+    if k in seen:
+        return
+    seen.add(k)
+    if z3.is_app(e):
+        if e.decl().kind() == z3.Z3_OP_UNINTERPRETED and e.decl().name() in reals.TRANS_NAMES:
+            if not any(_has_trans(c, cache) for c in e.children()):
+                out[k] = e
+                return
+        for c in e.children():
+            _innermost(c, cache, out, seen)
+    elif z3.is_quantifier(e):
+        _innermost(e.body(), cache, out, seen)
+
+
+_pur_counter = [0]
+
+
+def purify(formulas):
+    """replace every transcendental application by a fresh real constant (innermost first).
+    Dropping the congruence between different applications only weakens the hypotheses, so an
+    `unsat` answer on the purified problem is sound."""
+    fs = list(formulas)
+    for _ in range(200):
+        cache, out, seen = {}, {}, set()
+        for f in fs:
+            _innermost(f, cache, out, seen)
+        if not out:
+            break
+        subs = []
+        for t in out.values():
+            _pur_counter[0] += 1
+            subs.append((t, z3.Real("%s!p%d" % (t.decl().name(), _pur_counter[0]))))
+        fs = [z3.substitute(f, *subs) for f in fs]
+    return fs
+
+
+def _pure_nra(fs):
+    """no uninterpreted functions, integers or quantifiers left?"""
+    seen = set()
+
+    def ok(e):
+        k = e.get_id()
+        if k in seen:
+            return True
+        seen.add(k)
+        if z3.is_quantifier(e):
+            return False
+        if z3.is_app(e):
+            d = e.decl()
+            if d.kind() == z3.Z3_OP_UNINTERPRETED and e.num_args() > 0:
+                return False
+            if e.sort() == z3.IntSort():
+                return False
+            if d.kind() in (z3.Z3_OP_TO_REAL, z3.Z3_OP_TO_INT, z3.Z3_OP_IS_INT):
+                return False
+            return all(ok(c) for c in e.children())
+        return True
+    return all(ok(f) for f in fs)
+
+
+def check_sat(formulas, timeout_ms=None, want_model=False, use_cvc5=True, extra_axioms=(), levels=(0, 2)):
+    """satisfiability of the conjunction of formulas, with ground transcendental axioms added.
+    Axioms are added in stages: `unsat` with fewer axioms is final (axioms are only hypotheses);
+    `sat`/`unknown` escalates to the next stage, and only the last stage's answer is reported."""
     t0 = time.time()
     timeout_ms = timeout_ms or Z3_TIMEOUT_MS
     formulas = [f for f in formulas if not z3.is_true(f)]
-    ax = reals.axioms_for(list(formulas) + list(extra_axioms))
-    s = _mk_solver(timeout_ms, True)
-    for f in formulas:
+    tc = {}
+    has_trans = any(_has_trans(f, tc) for f in list(formulas) + list(extra_axioms))
+    if not has_trans:
+        levels = (levels[-1],)
+    last = None
+    for li, level in enumerate(levels):
+        final = li == len(levels) - 1
+        budget = timeout_ms if final else max(1000, timeout_ms // 3)
+        last = _check_level(formulas, extra_axioms, level, budget, want_model and final, use_cvc5 and final, t0)
+        if last.status == "unsat":
+            return last
+    return last
+
+
+def _check_level(formulas, extra_axioms, level, timeout_ms, want_model, use_cvc5, t0):
+    ax = reals.axioms_for(list(formulas) + list(extra_axioms), level=level)
+    allf = list(formulas) + list(extra_axioms) + ax
+    tc = {}
+    if any(_has_trans(f, tc) for f in allf):
+        allf = purify(allf)
+    if _pure_nra(allf):
+        s = z3.SolverFor("QF_NRA")
+        s.set("timeout", timeout_ms)
+        backend = "z3(QF_NRA,purified,axioms-L%d)" % level
+    else:
+        s = _mk_solver(timeout_ms, True)
+        backend = "z3(axioms-L%d)" % level
+    for f in allf:
         s.add(f)
-    for a in extra_axioms:
-        s.add(a)
-    for a in ax:
-        s.add(a)
     try:
         r = s.check()
         if os.environ.get("PYVC_TRACE") and time.time() - t0 > 0.5:
-            print("    [solve %.1fs %s] %s" % (time.time() - t0, r, " ".join(str(formulas[-1]).split())[:200]))
+            print("    [solve %.1fs %s %s] %s" % (time.time() - t0, r, backend, " ".join(str(formulas[-1]).split())[:200]))
     except z3.Z3Exception as e:
-        return Result("unknown", "z3", time.time() - t0, detail="z3 exception: %s" % e)
+        return Result("unknown", backend, time.time() - t0, detail="z3 exception: %s" % e)
     if r == z3.unsat:
-        return Result("unsat", "z3", time.time() - t0)
+        return Result("unsat", backend, time.time() - t0)
     if r == z3.sat:
-        return Result("sat", "z3", time.time() - t0, model=s.model() if want_model else None)
+        return Result("sat", backend, time.time() - t0, model=s.model() if want_model else None)
     detail = "z3: " + s.reason_unknown()
     if use_cvc5 and os.path.exists(CVC5):
         r2 = _cvc5(s, want_model)
@@ -57,7 +159,7 @@ def check_sat(formulas, timeout_ms=None, want_model=False, use_cvc5=True, extra_
             r2.time_s = time.time() - t0
             return r2
         detail += "; cvc5: unknown"
-    return Result("unknown", "z3+cvc5", time.time() - t0, detail=detail)
+    return Result("unknown", backend + "+cvc5", time.time() - t0, detail=detail)
 
 
 def _cvc5(solver, want_model):
@@ -88,8 +190,50 @@ def _cvc5(solver, want_model):
             pass
 
 
+def _ite_conds(e, acc, seen):
+    if e.get_id() in seen:
+        return
+    seen.add(e.get_id())
+    if z3.is_app(e):
+        if e.decl().kind() == z3.Z3_OP_ITE:
+            acc[e.arg(0).get_id()] = e.arg(0)
+        for c in e.children():
+            _ite_conds(c, acc, seen)
+
+
+def resolve_ites(pc, goal, rounds=6):
+    """replace if-then-else conditions of the goal that the path condition decides"""
+    for _ in range(rounds):
+        acc = {}
+        _ite_conds(goal, acc, set())
+        if not acc or len(acc) > 40:
+            break
+        subs = []
+        for c in acc.values():
+            r = check_sat(list(pc) + [z3.Not(c)], timeout_ms=1500, use_cvc5=False, levels=(0,))
+            if r.status == "unsat":
+                subs.append((c, z3.BoolVal(True)))
+                continue
+            r = check_sat(list(pc) + [c], timeout_ms=1500, use_cvc5=False, levels=(0,))
+            if r.status == "unsat":
+                subs.append((c, z3.BoolVal(False)))
+        if not subs:
+            break
+        goal = z3.simplify(z3.substitute(goal, *subs))
+    return goal
+
+
 def prove(pc, goal, timeout_ms=None, extra_axioms=()):
     """validity of (pc -> goal)"""
+    r = check_sat(list(pc) + [z3.Not(goal)], timeout_ms=(timeout_ms or Z3_TIMEOUT_MS) // 4, want_model=True,
+                  extra_axioms=extra_axioms, use_cvc5=False)
+    if r.status != "unknown":
+        return r
+    g2 = resolve_ites(pc, goal)
+    if not g2.eq(goal):
+        r2 = check_sat(list(pc) + [z3.Not(g2)], timeout_ms=timeout_ms, want_model=True, extra_axioms=extra_axioms)
+        r2.backend += "+ite-resolution"
+        return r2
     return check_sat(list(pc) + [z3.Not(goal)], timeout_ms=timeout_ms, want_model=True,
                      extra_axioms=extra_axioms)
 
